@@ -45,7 +45,7 @@ func runSchedOnce(sc *schedScenario, prefix []int) (x *sched.Exec, class, detail
 		// a panic inside a thread that the scenario did not recover itself; the scenario may excuse it
 		// (e.g. a caller that broke the API contract in this execution)
 		if inst.Verdict != nil {
-			if _, _, o := inst.Verdict(x); o == "excused" {
+			if _, _, o := runVerdict(inst, x); o == "excused" {
 				return x, "", "", "excused"
 			}
 		}
@@ -61,16 +61,33 @@ func runSchedOnce(sc *schedScenario, prefix []int) (x *sched.Exec, class, detail
 		}
 		// the scenario may still want to classify (e.g. which key)
 		if inst.Verdict != nil {
-			if cl, d, _ := inst.Verdict(x); cl != "" && cl != "deadlock" {
+			if cl, d, _ := runVerdict(inst, x); cl != "" && cl != "deadlock" && cl != "wedged" {
 				return x, cl, d, "deadlock"
 			}
 		}
 		return x, "deadlock", "no enabled thread: " + strings.Join(bl, "; "), "deadlock"
 	}
 	if inst.Verdict != nil {
-		class, detail, outcome = inst.Verdict(x)
+		class, detail, outcome = runVerdict(inst, x)
 	}
 	return x, class, detail, outcome
+}
+
+// runVerdict evaluates the scenario's verdict (which usually begins with closing observations made
+// through the real API) as a one-thread controlled execution: a closing request that can never
+// complete - because the explored execution leaked a lock - is then a detected "no enabled thread"
+// (class "wedged") instead of a hang of the checker.
+func runVerdict(inst *schedInst, x *sched.Exec) (class, detail, outcome string) {
+	vx := sched.Run(nil, 5_000_000, nil, func() { class, detail, outcome = inst.Verdict(x) })
+	switch {
+	case vx.Deadlock:
+		return "wedged", "after the explored execution a closing request can never complete (a lock was left held): blocked at " + vx.Blocked[0], "wedged"
+	case vx.NPanic > 0:
+		return "panic", "panic during the closing observations: " + vx.Panics[0], "panic"
+	case vx.Horizon:
+		return "livelock", "the closing observations exceeded 5000000 scheduling points", "horizon"
+	}
+	return class, detail, outcome
 }
 
 // exploreScenario enumerates every schedule of the scenario within the preemption bound.
